@@ -3,7 +3,7 @@
 Require Import List Arith Bool Lia.
 Require Import Raft.Quorum Raft.QuorumProofs Raft.RaftModel Raft.RaftSys Raft.RaftLog Raft.RaftInv
                Raft.RaftInvBase Raft.RaftInvMain Raft.RaftRefine Raft.RaftSafety Raft.RaftStepProps Raft.RaftSafetySteps Raft.RaftCheck
-               Raft.RaftCC Raft.RaftCCCheck Raft.RaftCCRefine Raft.RaftCCSafety Raft.RaftCCQuorum Raft.RaftCCInv Raft.RaftCCOne
+               Raft.RaftCC Raft.RaftCCCheck Raft.RaftCCRefine Raft.RaftCCSafety Raft.RaftCCQuorum Raft.RaftCCInv Raft.RaftCCOne Raft.RaftCCChain
                Raft.RaftPV Raft.RaftPVCheck Raft.RaftPVRefine.
 Import ListNotations.
 
@@ -444,6 +444,61 @@ Theorem C15_cc_at_most_one_uncommitted_conf_change_partial : forall F boot page1
 Proof. intros F boot page1 HF x Hx. exact (cc_at_most_one_uncommitted F HF boot page1 x Hx). Qed.
 Print Assumptions C15_cc_at_most_one_uncommitted_conf_change_partial.
 
+(* ingredient (b) along a log, for any log at all: the configurations after a prefix P and after
+   P ++ S, S holding at most one configuration-change entry, are equal or one change apart, so all
+   their quorums pairwise intersect *)
+Theorem C15_cc_chain_adjacent : forall boot, wfc boot -> forall P S, nconf S <= 1 ->
+  inter_family [(c_in (cfg_of boot P), c_out (cfg_of boot P));
+                (c_in (cfg_of boot (P ++ S)), c_out (cfg_of boot (P ++ S)))].
+Proof. intros boot Hb P S H. exact (chain_adjacent boot Hb S P H). Qed.
+Print Assumptions C15_cc_chain_adjacent.
+
+(* (a) + (b), inside the envelope: the configuration a node decides with (that of its committed
+   prefix) and the configuration of any longer prefix of its own log, the whole log included, have
+   pairwise intersecting quorums: a node is at most one configuration change behind its own log *)
+Theorem C15_cc_config_one_step_behind_partial : forall F boot page1, inter_family F -> wfc boot ->
+  forall x, cxreachableF F boot page1 x ->
+  forall y j, n_commit (fst (cx_nodes x y)) <= j ->
+    inter_family [(c_in (node_cfg boot (fst (cx_nodes x y))), c_out (node_cfg boot (fst (cx_nodes x y))));
+                  (c_in (cfg_of boot (firstn j (n_log (fst (cx_nodes x y))))),
+                   c_out (cfg_of boot (firstn j (n_log (fst (cx_nodes x y))))))].
+Proof. intros F boot page1 HF Hb x Hx y j Hj. exact (node_cfg_one_step_behind F HF boot Hb page1 x Hx y j Hj). Qed.
+Print Assumptions C15_cc_config_one_step_behind_partial.
+
+(* WHAT REMAINS for the full statements (no envelope).  Everything above is proved for the
+   invariant Inv F of Raft/RaftInv.v, whose quorum records are "a quorum of SOME configuration of
+   F" (Qr F) and whose only two uses of intersection are
+     (P1) RaftInvBase.committed_not_never : committed_at t k -> neverq t k -> False
+     (P2) RaftInvLeader (Pun)             : lof t = Some l, a second vote quorum of term t -> same node.
+   A continuation has to
+   1. tag every quorum record with the committed log prefix its configuration comes from:
+        QrP P p := joint_sat (c_in (cfg_of boot P)) (c_out (cfg_of boot P)) p
+        committed_at t k := valid t k /\ exists c, c < k /\ cc_ok (firstn k (LL t)) c /\ covered t c k
+                            /\ QrP (firstn c (LL t)) (ackedp t k)
+                            (c = the leader's commit index when it committed k)
+        iA6a, neverq     := the same with the winner's commit index c3 at the moment it won term t3,
+                            cc_ok restricted to the entries of LL t3 of terms < t3, covered with t0 < t3
+        covered t c k    := c = 0 \/ exists t0 k0, committed_at t0 k0 /\ c <= k0 /\ (t0 < t \/ (t0 = t /\ k0 < k))
+      and let M_win / M_commit use cfg_of boot (firstn (n_commit n) (n_log n)) instead of "In cfg F";
+   2. carry C1/C2 of RaftCCOne.v inside that invariant (they are needed by the case analysis, and
+      they need log matching: one joint induction);
+   3. prove leader completeness  committed_at t k -> t < t3 -> LL t3 <> [] -> has (LL t3) t k
+      by induction on (t + t3, k), lexicographically, in one state: iK7 gives has or neverq t k with
+      a tag (t3', c3); the two tagged prefixes are comparable by the induction hypothesis applied to
+      the entries covering them; with a, b their numbers of configuration-change entries:
+        |a - b| <= 1        C15_cc_chain_adjacent gives a node that acknowledged k in t and left t
+                            without acknowledging k: contradiction;
+        b >= a + 2, k <= c3 the never-tag's prefix covers k: has, by the induction hypothesis;
+        b >= a + 2, k > c3  LL t holds two changes above c below k: contradicts cc_ok (firstn k (LL t)) c;
+        a >= b + 2          LL t3' holds, by the induction hypothesis, the two changes of terms < t3'
+                            above c3: contradicts the winner's cc_ok.
+      NOTE: with reconfiguration neverq t k no longer implies that (t,k) is never committed (the
+      committing configuration may be far from the one that left): every consumer of "has \/
+      neverq" (iK6, iK8 in step_append, step_grant, step_win, step_commit) needs this analysis,
+      not only (P1);
+   4. (P2) with the same three cases, after leader completeness for the winning candidate.
+   Estimated at several days; not started beyond the ingredients above. *)
+
 (* non-vacuity of the membership-change model: in a 3-voter cluster node 1 is elected, proposes
    "add voter 4" (payload 104), replicates it to node 2, commits it and from then on decides with
    the configuration {1,2,3,4} *)
@@ -486,7 +541,11 @@ Proof. repeat split. Qed.
    [pxstep c0 c1] is its transition relation, tied to the code by trace validation
    (check_step_pv).  Pre-votes change no persisted state and their messages carry no authority:
    every PreVote run is a run of the micro-step system, so all safety theorems hold with PreVote
-   (fixed membership; CheckQuorum is not modelled, only monitored). *)
+   (fixed membership).  Config.CheckQuorum is part of the same model as two choices of the
+   environment: the event PvStepDown (a leader that finds no active quorum on a tick becomes a
+   follower of its term) and the non-delivery of a vote request (leader lease); the model does
+   not say WHEN they happen, so the theorems below hold for every CheckQuorum run, while
+   CheckQuorum's liveness is not covered. *)
 Theorem C15_prevote_transparent : forall c0 c1 F, In (c0, c1) F -> forall x, pxreachable c0 c1 x ->
   exists s, mreachable F s /\ (forall y, nodes s y = fst (px_nodes x y)) /\ msgs s = base_of (px_msgs x).
 Proof.
@@ -531,3 +590,10 @@ Theorem C15_check_step_pv_sound : forall c0 c1 x id ev obs_out obs obs_pre x',
   check_step_pv c0 c1 x id ev obs_out obs obs_pre = PVOk x' -> pxstep c0 c1 x x'.
 Proof. exact check_step_pv_sound. Qed.
 Print Assumptions C15_check_step_pv_sound.
+
+(* non-vacuity of the CheckQuorum event: a (single-voter) leader steps down and keeps term and vote *)
+Example C15_ex_checkquorum_stepdown :
+  let l := fst (exec_pv [1] [] 1 PvCampaign (init_node, false)) in
+  let f := fst (exec_pv [1] [] 1 PvStepDown l) in
+  n_role (fst l) = Leader /\ n_role (fst f) = Follower /\ n_term (fst f) = n_term (fst l) /\ n_vote (fst f) = n_vote (fst l) /\ n_log (fst f) = n_log (fst l) /\ n_commit (fst f) = n_commit (fst l).
+Proof. vm_compute. repeat split. Qed.
